@@ -99,6 +99,9 @@ pub fn classify(ctx: &mut Ctx, m: &Movie) -> bool {
     } else if m.last_to_eof {
         ctx.count("movie:last-mdat-with-size-0(to-end-of-file)");
     }
+    if m.huge.is_some() {
+        ctx.count("movie:file-larger-than-4GiB");
+    }
     nontrivial
 }
 
